@@ -38,6 +38,10 @@ func c04Alphabet() []Op {
 		// reserved names in the middle of a list are skipped, the rest of the list still counts
 		Op{K: "remove", P: "/posts", Ms: []string{"HEAD", "GET"}},
 		Op{K: "remove", P: "/posts", Ms: []string{"POST", "", "OPTIONS", "GET"}},
+		// a list made of names the router does not know at all: nothing is removed (an empty list means "everything"
+		// only when the caller gave none)
+		Op{K: "remove", P: "/posts", Ms: []string{"PURGE"}},
+		Op{K: "remove", P: "/posts", Ms: []string{"get", ""}},
 		Op{K: "handle", P: "/posts", Ms: []string{"TRACE"}}, // only enabled without WithTrace
 		Op{K: "remove", P: "/posts", Ms: []string{"TRACE"}},
 		Op{K: "clean"},
